@@ -139,7 +139,7 @@ def short(h):
     return ["%s(%s)" % (s["op"], ", ".join("%s=%s" % (k, v) for k, v in sorted(s["a"].items()) if k != "x" or "Convert" in s["op"])) for s in h]
 
 
-def replay(t, rep, db, every_step=False):
+def replay_one(t, rep, db, every_step=False):
     from barril.units import UnitDatabase
 
     UnitDatabase.PushSingleton(db)
@@ -193,7 +193,7 @@ def main(tier):
         if not trs:
             raise common.MachineryError("no transitions emitted")
         for t in trs:
-            replay(t, rep, db)
+            replay_one(t, rep, db)
             n += 1
             ops[t["h"][-1]["op"]] = ops.get(t["h"][-1]["op"], 0) + 1
         rep.sample({"history": short(trs[len(trs) // 2]["h"]), "predicted_log": trs[len(trs) // 2]["log"]})
@@ -206,7 +206,7 @@ def main(tier):
     if len(sims) < nsim // 2:
         raise common.MachineryError("simulation produced %d behaviours, expected %d" % (len(sims), nsim))
     for t in sims:
-        replay(t, rep, db, every_step=True)
+        replay_one(t, rep, db, every_step=True)
         for s_ in t["h"]:
             ops[s_["op"]] = ops.get(s_["op"], 0) + 1
     n += len(sims)
